@@ -13,6 +13,16 @@ TB_VALUE = TB_COMMON + [
 ]
 
 PROPS = {
+    "C10": {
+        "n_quick": 1200, "n_thorough": 30000,
+        "check_fn": "k10_check",
+        "rule": "specifications with 0-3 positional parameters and an optional variadic one over 10 type constraints and independent allow-null / allow-unknown / allow-dynamic / "
+                "allow-marked flags; type-check callback in {constant type, type of first argument, error, panic}; implementation in {constant, first argument, unknown, null, "
+                "non-conforming value, error, panic}; optional result refinement; argument lists of admissible (8%: inadmissible) length mixing conforming, non-conforming, null, "
+                "dynamic-null, unknown (refined), dynamic and deeply marked values; the spied callback trace and the result are compared with the model; non-trivial = at least one argument",
+        "trusted_base": TB_VALUE + ["Go's defer/recover order in Function.Call is modelled (apply_refine after the recovered body), not verified"],
+        "assumptions": ["callbacks are deterministic functions of their arguments"],
+    },
     "C01": {
         "n_quick": 330, "n_thorough": 9000,
         "check_fn": "k01_check",
